@@ -62,3 +62,53 @@ func runC03Dbg(e *Env) {
 	})
 	fmt.Printf("c03dbg: %d/%d runs did not complete: %v\n", bad, n, classes)
 }
+
+func init() { register("poolmixdbg", runPoolMixDbg) }
+
+// poolmixdbg runs fault-free transfers next to transfers whose sender is
+// aborted mid-way, all with the same chunk size in one process, and prints
+// every double success whose tree differs ($VERIF_REPEAT transfers).
+func runPoolMixDbg(e *Env) {
+	n, _ := strconv.Atoi(os.Getenv("VERIF_REPEAT"))
+	if n <= 0 {
+		n = 2000
+	}
+	lp, err := vk.NewListenerPool(16, 0)
+	if err != nil {
+		fmt.Println(err)
+		return
+	}
+	defer lp.Close()
+	r := vk.NewRng(e.Seed)
+	cases := make([]xferCase, n)
+	for i := range cases {
+		c := xferCase{ID: fmt.Sprintf("mix-%d", i), Shape: "chunks:64", Names: "plain", TSeed: r.U64()}
+		c.Cfg.Transport = os.Getenv("VERIF_TRANSPORT")
+		if c.Cfg.Transport == "" {
+			c.Cfg.Transport = "quic"
+		}
+		c.Cfg.Conns, c.Cfg.Streams, c.Cfg.Resume, c.Cfg.ChunkSize = 1, 1+r.Intn(4), true, 64
+		c.Cfg.NoRootDir, c.Cfg.ScanPaths = true, true
+		c.Cfg.WatchdogMs = 10000
+		if i%2 == 1 {
+			c.History = "partial"
+		}
+		cases[i] = c
+	}
+	var mu sync.Mutex
+	bad, ok := 0, 0
+	vk.ParallelDo(n, 16, func(i int) {
+		o := runC03Case(e, lp, cases[i])
+		mu.Lock()
+		defer mu.Unlock()
+		if o.Res.BothOK() && len(o.Diff) == 0 {
+			ok++
+			return
+		}
+		if o.Res.BothOK() {
+			bad++
+			fmt.Printf("UNFAITHFUL %s history=%q: %v\n", cases[i].ID, cases[i].History, o.Diff)
+		}
+	})
+	fmt.Printf("poolmixdbg: %d transfers, %d identical double successes, %d double successes with a different tree\n", n, ok, bad)
+}
